@@ -97,7 +97,10 @@ EqClauses(e) == LET a == MkFromString(e.call.a)  b == MkFromString(e.call.b)  o 
 
 \* ---- C07: unfolding
 ResPairs(x) == {<<r.type, r.segs>> : r \in x.res}
-UnfoldClauses(e) == LET x == Unfold(e.call.search)  o == e.obs IN
+UnfoldOf(c) == IF "extrapolate" \in DOMAIN c /\ c.extrapolate THEN UnfoldExtrapolated(c.search)
+               ELSE IF "uniquify" \in DOMAIN c /\ c.uniquify THEN UnfoldUniquified(c.search)
+               ELSE Unfold(c.search)
+UnfoldClauses(e) == LET x == UnfoldOf(e.call)  o == e.obs IN
   << C("raise_class", o.err = (IF x.err = "spil" THEN "SpilException" ELSE "")),
      C("set_equal", x.err # "" \/ o.err # "" \/ ToSet(o.res) = ResPairs(x)),
      C("no_dup", Cardinality(ToSet(o.res)) = Len(o.res)),
@@ -265,8 +268,8 @@ Tag(e) ==
   ELSE IF e.call.op = "getwith" THEN "getwith:" \o (IF GetWithKw(QueryBase(e), e.call.kw).res.type = "" THEN "untyped" ELSE "typed")
   ELSE IF e.call.op = "forms" THEN "forms:" \o MkFromString(e.call).type
   ELSE IF e.call.op = "nav" THEN "nav:" \o e.call.via \o ":" \o (IF NavBase(e).type = "" THEN "untyped" ELSE "typed")
-  ELSE IF e.call.op = "unfold" THEN LET x == Unfold(e.call.search) IN
-        "unfold:" \o (IF x.err # "" THEN "error" ELSE IF x.res = {} THEN "nothing" ELSE IF Cardinality(x.res) = 1 THEN "one" ELSE "many")
+  ELSE IF e.call.op = "unfold" THEN LET x == UnfoldOf(e.call) IN
+        "unfold:" \o (IF "extrapolate" \in DOMAIN e.call /\ e.call.extrapolate THEN "extrapolate:" ELSE IF "uniquify" \in DOMAIN e.call /\ e.call.uniquify THEN "uniquify:" ELSE "") \o (IF x.err # "" THEN "error" ELSE IF x.res = {} THEN "nothing" ELSE IF Cardinality(x.res) = 1 THEN "one" ELSE "many")
   ELSE IF e.call.op = "findlist" THEN LET x == FindList(LOf(e.call), e.call.search) IN
         "findlist:" \o (IF x.err # "" THEN "error" ELSE IF ~x.pre THEN "gt-precondition-false"
                         ELSE (IF x.sorted THEN "gt:" ELSE "star:") \o (IF x.res = {} THEN "nothing" ELSE "found"))
